@@ -383,7 +383,7 @@ pub fn cmd_sync(args: &Args) -> i32 {
                         entry["replay"] = json!(path);
                     }
                 }
-                if violations.len() < 400 {
+                if crate::util::room(&violations, entry["kind"].as_str().unwrap_or("")) {
                     violations.push(entry);
                 }
             }
